@@ -47,9 +47,23 @@ def mixed_cfgs():
     }
 
 
+def shared_secret_cfgs():
+    """different users of one process that happen to use the SAME password bytes under different digests / ciphers (nothing may be
+    shared between them: keys depend on the digest, RFC 3414 A.2)"""
+    e = ag.Agent().engine
+    pw = b"one-password-for-all"
+    return {
+        "v3-md5-samepw": rawdrv.Cfg("v3", user="same1", engine=e, auth="md5", akt="password", akm=pw),
+        "v3-sha1-samepw": rawdrv.Cfg("v3", user="same2", engine=e, auth="sha1", akt="password", akm=pw),
+        "v3-md5-aes-samepw": rawdrv.Cfg("v3", user="same3", engine=e, auth="md5", akt="password", akm=pw, priv="aes", pkt="password", pkm=pw),
+        "v3-sha1-des-samepw": rawdrv.Cfg("v3", user="same4", engine=e, auth="sha1", akt="password", akm=pw, priv="des", pkt="password", pkm=pw),
+    }
+
+
 def all_cfgs():
     d = std_cfgs()
     d.update(mixed_cfgs())
+    d.update(shared_secret_cfgs())
     return d
 
 
